@@ -1703,13 +1703,20 @@ func (c *Conn) handleSettings(st *Settings) {
 	if st.hasTableSize {
 		size := st.HeaderTableSize()
 
+		// A frame may carry the parameter more than once: the smallest value
+		// is the one to remember as the minimum, the last one is what holds.
+		low := size
+		if st.tableSizeMin < low {
+			low = st.tableSizeMin
+		}
+
 		for {
 			cur := atomic.LoadUint32(&c.encTableSizeMin)
-			if cur != 0 && cur-1 <= size {
+			if cur != 0 && cur-1 <= low {
 				break
 			}
 
-			next := size + 1
+			next := low + 1
 			if next == 0 { // 2^32-1 cannot be told apart from "nothing pending"; it is not a minimum worth recording
 				break
 			}
